@@ -271,7 +271,7 @@ Proof.
 Qed.
 
 (* ---------------------------------------------------------------- the scan of the child entries *)
-Definition hit (vals : list value) (j : nat) (e : entry) : bool := existsb (veq (col_val j (e_row e))) vals.
+Definition hit (vals : list value) (j : nat) (e : entry) : bool := chit vals j e.
 
 Lemma child_scan_block j act vals es :
   (act =? 2) = false -> child_scan j act vals es = if existsb (hit vals j) es then None else Some [].
@@ -286,11 +286,31 @@ Proof.
   change (2 =? 2) with true. cbn [negb]. rewrite andb_false_r, IH. destruct (hit vals j e); reflexivity.
 Qed.
 
-Lemma veq_exists a vals :
-  existsb (veq a) vals = if is_null a then existsb is_null vals else vmem a vals.
+Lemma idx_del_noop : forall ixs ds i sel,
+  (forall e d j, In e sel -> nth_error ds j = Some d -> is_key d = true -> is_null (col_val (i + j) (e_row e)) = true) ->
+  idx_del_from ixs ds i sel = ixs.
 Proof.
-  unfold vmem. induction vals as [|b vals IH]; [destruct (is_null a); reflexivity|]. cbn [existsb]. rewrite IH.
-  destruct a; cbn [is_null veq]; try reflexivity. destruct b; reflexivity.
+  induction ixs as [|ix ixs IH]; intros ds i sel H; [reflexivity|]. destruct ds as [|d ds]; [reflexivity|].
+  cbn [idx_del_from]. rewrite IH by (intros e d' j He Hd K; replace (S i + j)%nat with (i + S j)%nat by lia; exact (H e d' (S j) He Hd K)).
+  f_equal. destruct (is_key d) eqn:K; [|reflexivity].
+  assert (G : forall l a, (forall e, In e l -> In e sel) ->
+              fold_left (fun a e => let v := col_val i (e_row e) in if is_null v then a else idx_del v a) l a = a).
+  { induction l as [|e l IHl]; intros a Hs; [reflexivity|]. cbn [fold_left].
+    pose proof (H e d 0%nat (Hs e (or_introl eq_refl)) eq_refl K) as N. rewrite Nat.add_0_r in N. cbn zeta. rewrite N.
+    apply IHl. intros x Hx. apply Hs. right. exact Hx. }
+  apply G. auto.
+Qed.
+
+Lemma ids_filter (p : entry -> bool) (es : list entry) :
+  NoDup (map e_id es) ->
+  filter (fun e => existsb (Z.eqb (e_id e)) (map e_id (filter p es))) es = filter p es.
+Proof.
+  intros Hnd. apply filter_ext_in. intros e He. destruct (p e) eqn:P.
+  - apply existsb_exists. exists (e_id e). split; [|apply Z.eqb_refl]. apply in_map. apply filter_In. split; assumption.
+  - destruct (existsb (Z.eqb (e_id e)) (map e_id (filter p es))) eqn:X; [|reflexivity].
+    apply existsb_exists in X. destruct X as [k [Hk Ek]]. apply Z.eqb_eq in Ek. subst k.
+    apply in_map_iff in Hk. destruct Hk as [x [Hid Hx]]. apply filter_In in Hx. destruct Hx as [Hx Px].
+    pose proof (NoDup_id_eq _ _ _ Hnd Hx He Hid) as ->. congruence.
 Qed.
 
 Lemma drop_ids_filter (p : entry -> bool) (es : list entry) :
@@ -369,7 +389,11 @@ Lemma drop_ids_nil es : drop_ids [] es = es.
 Proof. unfold drop_ids. apply filter_true. intros x _. reflexivity. Qed.
 
 Lemma child_scan_novals j act es : child_scan j act [] es = Some [].
-Proof. induction es as [|e es IHe]; [reflexivity|]. cbn [child_scan existsb andb]. rewrite IHe. reflexivity. Qed.
+Proof.
+  induction es as [|e es IHe]; [reflexivity|]. cbn [child_scan]. rewrite IHe.
+  assert (H : chit [] j e = false) by (unfold chit, vmem; cbn [existsb]; apply andb_false_r).
+  rewrite H. reflexivity.
+Qed.
 Lemma child_scans_novals fks es : child_scans fks [] es = Some [].
 Proof.
   induction fks as [|[[j rc] act] fks IH]; [reflexivity|]. cbn [child_scans].
@@ -426,8 +450,6 @@ Proof.
   destruct (has_dead (select_rows (s_p sch) (d_p st) w)) eqn:Hd; [discriminate|].
   pose proof (select_rows_live _ _ _ w Tp V2 Hd) as Hsel. rewrite Hsel in Hcls.
   set (sel := live_sel (d_p st) w) in *.
-  destruct (del_dead_child sch st (del_vals sch sel)) eqn:C16; [discriminate|].
-  destruct (del_null_match sch st (del_vals sch sel)) eqn:C17; [discriminate|].
   destruct (del_casc_keys sch st (del_vals sch sel)) eqn:C19; [discriminate|]. clear Hcls.
   set (P := visible (d_p st)) in *. set (C := visible (d_c st)) in *.
   set (P' := filter (fun r => negb (wpass w r)) P).
@@ -438,11 +460,11 @@ Proof.
   assert (HndC : NoDup (map e_id (ents (d_c st)))) by (destruct Tc as [_ _ [H _] _]; exact H).
   (* what is left to show once the child side is settled: ids = the child entries removed *)
   assert (Hmain : forall ids,
-            visible (mkT (drop_ids ids (ents (d_c st))) (idxs (d_c st))) = filter g C ->
-            tinv (s_c sch) (mkT (drop_ids ids (ents (d_c st))) (idxs (d_c st))) (d_next st) ->
+            visible (mkT (drop_ids ids (ents (d_c st))) (idx_del_from (idxs (d_c st)) (s_c sch) 0 (filter (fun e => existsb (Z.eqb (e_id e)) ids) (ents (d_c st))))) = filter g C ->
+            tinv (s_c sch) (mkT (drop_ids ids (ents (d_c st))) (idx_del_from (idxs (d_c st)) (s_c sch) 0 (filter (fun e => existsb (Z.eqb (e_id e)) ids) (ents (d_c st))))) (d_next st) ->
             fk_ok (s_c sch) P' (filter g C) = true ->
             let st' := mkD (mkT (tombstone sel (ents (d_p st))) (idx_del_from (idxs (d_p st)) (s_p sch) 0 sel))
-                           (mkT (drop_ids ids (ents (d_c st))) (idxs (d_c st))) (d_next st) in
+                           (mkT (drop_ids ids (ents (d_c st))) (idx_del_from (idxs (d_c st)) (s_c sch) 0 (filter (fun e => existsb (Z.eqb (e_id e)) ids) (ents (d_c st))))) (d_next st) in
             exec_write sch (visible (d_p st), visible (d_c st)) (SDel TP w) = (true, abs_db st') /\ Inv sch st').
   { intros ids Hvis Htc Hfk st'.
     assert (Habs : abs_db st' = (P', filter g C)).
@@ -477,7 +499,7 @@ Proof.
     rewrite Hdv. cbn [child_scans]. exists true. eexists. split; [reflexivity|].
     unfold abs_db at 1. apply Hmain.
     + rewrite drop_ids_nil. symmetry. apply filter_true. intros r _. unfold g. rewrite (casc_row_nofk _ Hn). reflexivity.
-    + apply (tinv_ext _ (d_c st)); [cbn [ents]; rewrite drop_ids_nil; reflexivity|reflexivity|exact Tc].
+    + apply (tinv_ext _ (d_c st)); [cbn [ents]; rewrite drop_ids_nil; reflexivity|cbn [idxs]; symmetry; apply idx_del_noop; intros e0 d0 j0 He; apply filter_In in He; destruct He as [_ He]; discriminate|exact Tc].
     + unfold fk_ok. apply forallb_forall. intros r _. apply fk_row_nofk. exact Hn.
   - (* one foreign key: column j of c references column rc of p *)
     assert (Hfks : fks = []).
@@ -508,12 +530,7 @@ Proof.
     (* on live child entries the scan test is the reference's test on the row *)
     assert (Hhit : forall e, In e (ents (d_c st)) -> live e = true ->
               hit vals j e = negb (is_null (col_val j (e_row e))) && vmem (col_val j (e_row e)) vals).
-    { intros e He Le. unfold hit. rewrite veq_exists. destruct (is_null (col_val j (e_row e))) eqn:N; [|reflexivity].
-      cbn [negb andb]. unfold del_null_match, fk_cols in C17. rewrite FK in C17. cbn [existsb fst snd] in C17. rewrite orb_false_r in C17.
-      destruct (existsb is_null vals); [|reflexivity]. cbn [andb] in C17.
-      assert (X : existsb (fun e0 => live e0 && is_null (col_val j (e_row e0))) (ents (d_c st)) = true).
-      { apply existsb_exists. exists e. split; [exact He|]. rewrite Le, N. reflexivity. }
-      congruence. }
+    { intros e He Le. unfold hit, chit. rewrite Le. reflexivity. }
     (* a kept parent value: held before and not removed *)
     assert (Hkept : forall v, is_null v = false ->
               vmem v (colvals rc P') = vmem v (colvals rc P) && negb (vmem v vals)).
@@ -529,21 +546,31 @@ Proof.
         rewrite Hcasc by (destruct Tc as [_ _ _ [Hrf _]]; apply row_fits_len; apply Hrf; exact He).
         rewrite Hvg. reflexivity.
       * (* the child table without the cascaded entries *)
-        rewrite (drop_ids_filter _ _ HndC).
-        destruct Tc as [Hex Hnn [_ Hid] [Hrf Hli]]. constructor.
+        assert (Hk19 : forall x, In x (ents (d_c st)) -> live x = true -> hit vals j x = true ->
+                       has_keyval (s_c sch) (e_row x) = false).
+        { intros x Hx Lx Gx.
+          unfold del_casc_keys, fk_cols in C19. rewrite FK in C19. cbn [child_scans] in C19. rewrite child_scan_casc in C19.
+          rewrite app_nil_r in C19.
+          destruct (has_keyval (s_c sch) (e_row x)) eqn:HK; [|reflexivity]. exfalso.
+          assert (X : existsb (fun e => live e && existsb (Z.eqb (e_id e)) (map e_id (filter (hit vals j) (ents (d_c st)))) &&
+                                        has_keyval (s_c sch) (e_row e)) (ents (d_c st)) = true).
+          { apply existsb_exists. exists x. split; [exact Hx|]. rewrite Lx, HK. cbn [andb]. rewrite andb_true_r.
+            apply existsb_exists. exists (e_id x). split; [|apply Z.eqb_refl]. apply in_map. apply filter_In. split; assumption. }
+          congruence. }
+        destruct Tc as [Hex Hnn [_ Hid] [Hrf Hli]].
+        apply (tinv_ext _ (mkT (filter (fun e => negb (hit vals j e)) (ents (d_c st))) (idxs (d_c st)))).
+        { cbn [ents]. symmetry. apply drop_ids_filter. exact HndC. }
+        { cbn [idxs]. symmetry. apply idx_del_noop. intros e d jj He Hdj K.
+          rewrite (ids_filter _ _ HndC) in He. apply filter_In in He. destruct He as [He Ge].
+          assert (Le : live e = true) by (unfold hit, chit in Ge; apply andb_true_iff in Ge; destruct Ge as [Ge _]; apply andb_true_iff in Ge; tauto).
+          assert (Hi : (jj < length (e_row e))%nat).
+          { rewrite (row_fits_len _ _ (Hrf e He)). apply nth_error_Some. rewrite Hdj. discriminate. }
+          exact (has_keyval_nth _ _ jj d (Hk19 e He Le Ge) Hdj K Hi). }
+        constructor.
         -- intros i d Hdi K v Nv. unfold get_idx. cbn [idxs]. fold (get_idx (d_c st) i). rewrite (Hex i d Hdi K v Nv).
            unfold live_has. cbn [ents]. symmetry. apply existsb_filter_same.
            intros x Hx Gx. apply negb_false_iff in Gx. destruct (live x) eqn:Lx; [|reflexivity]. cbn [andb].
-           (* x is live and cascaded: class 19 says it holds no key value *)
-           unfold del_casc_keys, fk_cols in C19. rewrite FK in C19. cbn [child_scans] in C19. rewrite child_scan_casc in C19.
-           rewrite app_nil_r in C19.
-           assert (Hk : has_keyval (s_c sch) (e_row x) = false).
-           { destruct (has_keyval (s_c sch) (e_row x)) eqn:HK; [|reflexivity]. exfalso.
-             assert (X : existsb (fun e => live e && existsb (Z.eqb (e_id e)) (map e_id (filter (hit vals j) (ents (d_c st)))) &&
-                                           has_keyval (s_c sch) (e_row e)) (ents (d_c st)) = true).
-             { apply existsb_exists. exists x. split; [exact Hx|]. rewrite Lx, HK. cbn [andb]. rewrite andb_true_r.
-               apply existsb_exists. exists (e_id x). split; [|apply Z.eqb_refl]. apply in_map. apply filter_In. split; assumption. }
-             congruence. }
+           pose proof (Hk19 x Hx Lx Gx) as Hk.
            assert (Hi : (i < length (e_row x))%nat).
            { rewrite (row_fits_len _ _ (Hrf x Hx)). apply nth_error_Some. rewrite Hdi. discriminate. }
            pose proof (has_keyval_nth _ _ i d Hk Hdi K Hi) as Hn. fold (col_val i (e_row x)) in Hn.
@@ -564,12 +591,7 @@ Proof.
     + (* RESTRICT / NO ACTION *)
       rewrite (child_scan_block j act vals _ A).
       assert (Hlive : forall e, In e (ents (d_c st)) -> hit vals j e = true -> live e = true).
-      { intros e He Hh. unfold live. destruct (e_del e) eqn:D; [|reflexivity]. exfalso.
-        unfold del_dead_child, fk_cols in C16. rewrite FK in C16. cbn [existsb fst snd] in C16. rewrite A in C16. cbn [negb andb] in C16.
-        rewrite orb_false_r in C16.
-        assert (X : existsb (fun e0 => e_del e0 && existsb (veq (col_val j (e_row e0))) vals) (ents (d_c st)) = true).
-        { apply existsb_exists. exists e. split; [exact He|]. rewrite D. exact Hh. }
-        congruence. }
+      { intros e He Hh. unfold hit, chit in Hh. apply andb_true_iff in Hh. destruct Hh as [Hh _]. apply andb_true_iff in Hh. tauto. }
       assert (Hg : forall r, In r C -> g r = true).
       { intros r Hr. unfold g. rewrite (Hcasc r gone (HlenC r Hr)). reflexivity. }
       destruct (existsb (hit vals j) (ents (d_c st))) eqn:B.
@@ -591,7 +613,7 @@ Proof.
       * (* nothing references the deleted rows *)
         exists true. eexists. split; [reflexivity|]. unfold abs_db at 1. apply Hmain.
         -- rewrite drop_ids_nil. fold (visible (d_c st)). fold C. symmetry. exact (filter_true C g Hg).
-        -- apply (tinv_ext _ (d_c st)); [cbn [ents]; rewrite drop_ids_nil; reflexivity|reflexivity|exact Tc].
+        -- apply (tinv_ext _ (d_c st)); [cbn [ents]; rewrite drop_ids_nil; reflexivity|cbn [idxs]; symmetry; apply idx_del_noop; intros e0 d0 j0 He; apply filter_In in He; destruct He as [_ He]; discriminate|exact Tc].
         -- rewrite (filter_true C g Hg). unfold fk_ok. apply forallb_forall. intros r Hr.
            unfold fk_ok in V5. rewrite forallb_forall in V5. specialize (V5 r Hr). rewrite (Hrow r P (HlenC r Hr)) in V5.
            rewrite (Hrow r P' (HlenC r Hr)). fold (col_val j r) in *.
